@@ -9,7 +9,7 @@
    also says that no other bit of any plane changes. *)
 From Coq Require Import List NArith ZArith Bool Ascii String.
 From Gatery Require Import Bits BvsDefs BvsSpec BvsLeaf BvsWords BvsCopy BvsAbs BvsOps BvsEq
-     BvsQuery BvsCmp BvsMerge BvsBig BvsSeq BvsText BvsParse.
+     BvsQuery BvsCmp BvsMerge BvsBig BvsSeq BvsText BvsParse BvsRound.
 Import ListNotations.
 Local Open Scope N_scope.
 
@@ -323,6 +323,17 @@ Print Assumptions C18_parse_octal_literal.
 Example ex_parse : hex_body (list_ascii_of_string "fX09") = true
                    /\ digits_spec 4 (list_ascii_of_string "A5") = [[true;false;true;false; false;true;false;true]; repeat true 8].
 Proof. split; vm_compute; reflexivity. Qed.
+
+(* parse (print s) = the same 0/1/X array (the VALUE bit under an undefined position is not
+   preserved by the text form, hence the comparison of the four-state views) *)
+Theorem C18_parse_print_roundtrip : forall s,
+  wf s -> length (planes s) = 2%nat ->
+  exists s', parseBitVector ("b"%char :: printState false s) = Some s'
+             /\ wf s' /\ bsize s' = bsize s /\ tview (abs s') = tview (abs s).
+Proof. exact parse_print_roundtrip. Qed.
+Print Assumptions C18_parse_print_roundtrip.
+Example ex_roundtrip : wf ex_s /\ length (planes ex_s) = 2%nat.
+Proof. split; apply ex_s_wf. Qed.
 
 (* ---------------- refuted: where the real container (and hence the faithful model) does NOT
    behave like the operation on an array of bits; both are confirmed on the real library by
